@@ -386,9 +386,9 @@ def sx_ite(c, a, b):
         return a
     if c is False:
         return b
-    return SX(IteR(c, a.v, b.v), IteB(c, a.nan, b.nan), IteB(c, a.pinf, b.pinf),
-              IteB(c, a.ninf, b.ninf), a.sg if a.sg == b.sg else
-              ('0+' if a.sg in ('+', '0+') and b.sg in ('+', '0+') else None))
+    return _abstract(SX(IteR(c, a.v, b.v), IteB(c, a.nan, b.nan), IteB(c, a.pinf, b.pinf),
+                        IteB(c, a.ninf, b.ninf), a.sg if a.sg == b.sg else
+                        ('0+' if a.sg in ('+', '0+') and b.sg in ('+', '0+') else None)))
 
 
 def sx_max(a, b):
@@ -522,6 +522,61 @@ class LogV:
 
 
 LOG_MODE = [False]   # when set, torch.log of a *concrete* value yields LogV
+FORK = [False]       # when set, selections on symbolic conditions (max, where, nan_to_num, ...)
+                     # fork the path instead of building If-terms: every path then carries
+                     # If-free (polynomial) arithmetic, which is what z3 decides quickly
+
+
+ABSTRACT = [False]   # when set, the value of a symbolic selection is named by a fresh variable
+                     # mu with the defining equation kept as a side constraint of the path:
+                     # downstream arithmetic stays If-free, the solver unfolds a definition
+                     # only where a proof needs it
+_defs = []
+_facts = []
+
+
+class no_abstract:
+    """oracle-side computations never introduce abstraction variables"""
+
+    def __enter__(self):
+        self.prev = ABSTRACT[0]
+        ABSTRACT[0] = False
+
+    def __exit__(self, *a):
+        ABSTRACT[0] = self.prev
+
+
+def reset_path():
+    del _defs[:]
+    del _facts[:]
+
+
+def path_defs():
+    return list(_defs) + list(_facts)
+
+
+def path_facts():
+    return list(_facts)
+
+
+def _abstract(r):
+    if not ABSTRACT[0] or not isinstance(r, SX) or z3.is_rational_value(r.v) or z3.is_const(r.v):
+        return r
+    mu = z3.Real(f'mu!{len(_defs)}')
+    _defs.append(mu == r.v)
+    if r.sg == '+':
+        _facts.append(mu > 0)
+    elif r.sg == '0+':
+        _facts.append(mu >= 0)
+    return SX(mu, r.nan, r.pinf, r.ninf, r.sg)
+
+
+def _decide(c):
+    """under FORK: concretise a symbolic condition by forking the engine"""
+    if FORK[0] and not isinstance(c, bool):
+        import symx
+        return symx.branch(c)
+    return c
 
 
 def as_log(x):
@@ -695,6 +750,11 @@ def maximum(a, b):
         return LogV(maximum(a.e, b.e))
     if _int_like(a) and _int_like(b):
         return IteI(a < b, b, a)
+    if FORK[0]:
+        a, b = lift(a), lift(b)
+        if _decide(Or(a.nan, b.nan)):
+            return math.nan
+        return _fin(b if _decide(sx_lt(a, b)) else a)
     return _fin(sx_max(lift(a), lift(b)))
 
 
@@ -708,6 +768,11 @@ def minimum(a, b):
         return LogV(minimum(a.e, b.e))
     if _int_like(a) and _int_like(b):
         return IteI(b < a, b, a)
+    if FORK[0]:
+        a, b = lift(a), lift(b)
+        if _decide(Or(a.nan, b.nan)):
+            return math.nan
+        return _fin(b if _decide(sx_lt(b, a)) else a)
     return _fin(sx_min(lift(a), lift(b)))
 
 
@@ -733,6 +798,7 @@ def relu(a):
 
 def ite(c, a, b):
     """select between two scalars of any (compatible) representation"""
+    c = _decide(c)
     if c is True:
         return a
     if c is False:
@@ -795,6 +861,9 @@ def nan_to_num_lin(a, nan, posinf, neginf):
     for flag, repl in ((a.nan, nan), (a.pinf, posinf), (a.ninf, neginf)):
         if flag is False or repl is None:
             continue
+        flag = _decide(flag)
+        if flag is True:
+            return repl if not isinstance(repl, SX) else _fin(repl)
         r = sx_ite(flag, SX.const(repl) if not isinstance(repl, SX) else repl, r)
     return _fin(r)
 
